@@ -351,6 +351,9 @@ structure InvA (B : Nat) (c : Cfg G L) : Prop where
     (c.locals t).cursor <:+ (c.g.nodes n).waits
   /-- at `nSignal` the cursor is non-empty -/
   signal_cursor : ∀ t, (c.locals t).pc = .nSignal → (c.locals t).cursor ≠ []
+  /-- `mapInsert` is reached only when the chain has no node for the address -/
+  insert_ok : ∀ t, (c.locals t).pc = .wMapInsert →
+    ∀ n ∈ c.g.buckets ((c.locals t).addr % B), (c.g.nodes n).key ≠ (c.locals t).addr
 
 /-! ### `chainFind` (mapGet / mapRemove lookups) -/
 
@@ -431,7 +434,7 @@ theorem InvA.init {B : Nat} {c : Cfg G L} (h : Init c) : InvA B c := by
   refine { tid_eq := ?_, no_crash := ?_, mutex_iff := ?_, wait_live := ?_, live_wait := ?_, slot_ok := ?_,
            enq_mem := ?_, list_ok := ?_, list_nodup := ?_, chain_ok := ?_, chain_nodup := ?_, chain_keys := ?_,
            live_chain := ?_, node_fresh := ?_, parked_ok := ?_, parked_nodup := ?_, map_alloc := ?_,
-           cursor_ok := ?_, signal_cursor := ?_ }
+           cursor_ok := ?_, signal_cursor := ?_, insert_ok := ?_ }
   all_goals (try simp [hg, G.init, hpc, PC.holds, PC.hasWait, PC.hasSlot, PC.enq, PC.afterCreate])
   · intro t; obtain ⟨p, hp⟩ := hl t; simp [hp, L.init]
 
